@@ -4,6 +4,9 @@
           (which collection of `Database` and which SignatureMatcher::matching_by_* wrapper the harness drives;
            the model is the same for T/U and for H/R)
    entry: one label with its signatures:  <sig>/<sig>/…   or  .  for a label without signatures
+          compact forms (expanded before MODEL and SPEC run; used for databases beyond 2^16 positions):
+            inside an entry   <run>~<run>~…   with run = <sig>/<sig>/…  or  <n>^<sig>/<sig>/…  (that list n times)
+            database token    <n>@<entry>|<entry>|…   = that sequence of labels n times   (n <= 300000)
    signature / observation encoding: Model/SigCase.v
    result:  NONE | <label idx> <sig idx> <distance> <quality>     (PANIC: index out of range, never reached)
    MODEL = FingerprintCollection::new(entries).find_best_match(obs)  (index + strict-< candidate loop)
@@ -16,21 +19,49 @@ Open Scope N_scope.
 
 Definition bad : bytes := bs "BADCASE".
 
+(* repetition (compact notation for databases with more than 2^16 labels / signatures under one label);
+   the database handed to MODEL and SPEC is the fully expanded one *)
+Definition max_rep : N := 300000.
+Definition rep {A} (n : N) (l : list A) : list A := N.iter n (fun acc => l ++ acc) [].
+
+(* run: <sig>/<sig>/…  or  <n>^<sig>/<sig>/…  (the signature list n times) *)
+Definition parse_run {A} (f : bytes -> option A) (b : bytes) : option (list A) :=
+  match fsplit "^"%byte b with
+  | [sigs] => map_opt f (fsplit "/"%byte sigs)
+  | [c; sigs] =>
+      match read_le max_rep c, map_opt f (fsplit "/"%byte sigs) with
+      | Some n, Some l => Some (rep n l)
+      | _, _ => None end
+  | _ => None end.
+
+(* entry: .  or  <run>~<run>~…  (concatenated) *)
 Definition parse_entry {A} (f : bytes -> option A) (b : bytes) : option (unit * list A) :=
   if bytes_eqb b (bs ".") then Some (tt, [])
-  else option_map (fun l => (tt, l)) (map_opt f (fsplit "/"%byte b)).
+  else option_map (fun ls => (tt, concat ls)) (map_opt (parse_run f) (fsplit "~"%byte b)).
+
+(* database token: <entry>  or  <n>@<entry>|<entry>|…  (that sequence of labels n times) *)
+Definition parse_dbtok {A} (f : bytes -> option A) (t : bytes) : option (list (unit * list A)) :=
+  match fsplit "@"%byte t with
+  | [e] => option_map (fun x => [x]) (parse_entry f e)
+  | [c; es] =>
+      match read_le max_rep c, map_opt (parse_entry f) (fsplit "|"%byte es) with
+      | Some n, Some l => Some (rep n l)
+      | _, _ => None end
+  | _ => None end.
+Definition parse_db {A} (f : bytes -> option A) (ents : list bytes) : option (list (unit * list A)) :=
+  option_map (@concat _) (map_opt (parse_dbtok f) ents).
 
 Definition run_line (l : bytes) : bytes :=
   match tokens l with
   | k :: ob :: ents =>
       if bytes_eqb k (bs "T") || bytes_eqb k (bs "U") then
-        match parse_tcp ob, map_opt (parse_entry parse_tcp) ents with
+        match parse_tcp ob, parse_db parse_tcp ents with
         | Some o, Some db =>
             out3 (show_fres (tcp_find_best_match db o))
                  (if concrete_obs_b o then show_fres (tcp_scan db o) else bs "-") false
         | _, _ => bad end
       else if bytes_eqb k (bs "H") || bytes_eqb k (bs "R") then
-        match parse_http ob, map_opt (parse_entry parse_http) ents with
+        match parse_http ob, parse_db parse_http ents with
         | Some o, Some db =>
             out3 (show_fres (http_find_best_match db o))
                  (if concrete_http_b o then show_fres (http_scan db o) else bs "-") false
@@ -45,6 +76,11 @@ Proof. vm_compute. reflexivity. Qed.
 Example run_line_ex2 :
   run_line (bs "H 2:!486f7374:-:6375726c . *:!486f7374,!4163636570743d2a2f2a:-:6375726c/*:!486f7374:-:6375726c2f37 1:!486f7374:-:6375726c")
   = bs "1 0 0 1.00	1 0 0 1.00	0".
+Proof. vm_compute. reflexivity. Qed.
+
+Example run_line_ex3 :
+  run_line (bs "T 4:d54.10:0:1460:s4:7:m,k,t,n,w:0,1:0 2@.|6:v64:0:*:s4:7:m,k,t,n,w:0,1:0 3^6:v64:0:*:s4:7:m,k,t,n,w:0,1:0/*:v128:0:*:s4:7:m,k,t,n,w:0,1:0~2^*:v128:0:*:s4:7:m,k,t,n,w:0,1:*/4:v64:0:*:s4:7:m,k,t,n,w:0,1:0")
+  = bs "4 7 0 1.00	4 7 0 1.00	0".
 Proof. vm_compute. reflexivity. Qed.
 
 Require Extraction.
